@@ -241,8 +241,16 @@ def run(ctx):
     for alg in ("lca", "superdtl", "thl"):
         with open(os.path.join(os.environ.get("VERIF_REPO", "/repo"), "data", "example.in.json"), encoding="utf-8") as handle:
             text = handle.read()
-        proc = subprocess.run([sys.executable, "-m", "superrec2.cli", "reconcile", alg], input=text, text=True,
-                              capture_output=True, env=env, check=False, timeout=600)
+        try:
+            proc = subprocess.run([sys.executable, "-m", "superrec2.cli", "reconcile", alg], input=text, text=True,
+                                  capture_output=True, env=env, check=False, timeout=180)
+        except subprocess.TimeoutExpired:   # the example takes a second: a run that does not end is a finding
+            events.append({"op": "cli", "alg": alg, "policy": "any", "hassyn": True,
+                           "given": {"onames": ["", "", "x_1", "x_2", "y_1"], "snames": ["", "X", "Y"],
+                                     "lm": [[3, 2], [4, 2], [5, 3]], "infer": [], "species": []},
+                           "exit": 99, "lines": [], "printed": -1, "drawn": [],
+                           "input": "data/example.in.json (subprocess)", "stderr": "no result after 180 s", "args": []})
+            break
         lines = []
         for line in proc.stdout.splitlines():
             parsed = mc.safe(lambda line=line: docproj.parse_line(A, json.loads(line)))
